@@ -235,8 +235,8 @@ def r_transform_args(ck: Checker) -> None:
 
 
 RULES = [
-    Rule("C15.A.is-single", P + ("C09",), r_is_single),
-    Rule("C15.uses", P + ("C09",), r_rule_dependency),
+    Rule("C15.A.is-single", P, r_is_single),
+    Rule("C15.uses", P, r_rule_dependency),
     Rule("C15.TABLE.good", PG, r_good_table),
     Rule("C15.G6.padding", PG, r_padding),
     Rule("C15.G.inline-minimize", PG, r_inline_minimize),
